@@ -143,6 +143,12 @@ void hx_emit_info(const char *fmt, ...) {
 }
 static int n_viol_emitted = 0;
 void hx_emit_violation(const char *prop, const char *kind, const char *sig, const char *msg, const char *replay_text) {
+    /* at most 3 records per (property, signature) and worker: the first ones are the shortest under BFS */
+    static struct { uint64_t h; int n; } seen_sig[512]; static int n_seen_sig = 0;
+    uint64_t sh_ = hx_fnv(sig, strlen(sig), hx_fnv(prop, strlen(prop), 0));
+    int si = 0; for (; si < n_seen_sig; si++) if (seen_sig[si].h == sh_) break;
+    if (si == n_seen_sig) { if (n_seen_sig < 512) { seen_sig[n_seen_sig].h = sh_; seen_sig[n_seen_sig].n = 0; n_seen_sig++; } else si = 511; }
+    if (++seen_sig[si].n > 3) { hb_puts(&out_buf, "{\"t\":\"violmore\",\"prop\":"); js(&out_buf, prop); hb_puts(&out_buf, ",\"sig\":"); js(&out_buf, sig); hb_puts(&out_buf, "}\n"); return; }
     if (++n_viol_emitted > 400) { if (n_viol_emitted == 401) hx_emit_cap("violation_records_per_worker"); return; }
     hb_puts(&out_buf, "{\"t\":\"viol\",\"prop\":"); js(&out_buf, prop);
     hb_puts(&out_buf, ",\"kind\":"); js(&out_buf, kind);
@@ -169,6 +175,13 @@ void hx_report_verdicts(const hx_script *s, const hx_obs *o, const char *only) {
     for (int i = 0; i < o->nverdict; i++) {
         const hx_verdict *v = &o->v[i];
         if (only && !strstr(only, v->prop)) continue;
+        if (!strcmp(v->prop, "C05") || !strcmp(v->prop, "C06")) {
+            /* C05 / C06 quantify over inputs, chunkings and interleavings, not over callbacks that abort
+             * parsing: executions in which a callback answered STOP / ERROR or destroyed a tx are not judged */
+            int aborting = 0;
+            for (int d = 0; d < s->ndev; d++) if (s->dev[d].act == CBA_STOP || s->dev[d].act == CBA_ERROR || s->dev[d].act == CBA_DESTROY_OTHER || s->dev[d].act == CBA_DESTROY_SELF) aborting = 1;
+            if (aborting) continue;
+        }
         static hx_buf rb; hb_reset(&rb); hx_script_print(&rb, s); hb_term(&rb);
         char sig[400]; snprintf(sig, sizeof sig, "%s@%s", v->kind, hx_sites_str(v->sites_before));
         hx_emit_violation(v->prop, v->kind, sig, v->msg, (const char *) rb.p);
